@@ -935,6 +935,10 @@ class NetworkGraph(AbstractBaseIR):
                     weight_mat = weight_mat.squeeze(axis=1)
                     eq = f"{t_str_final} = {w_str} * {s_str_final}"
                 else:
+                    if len(tidx_unique) == 1:
+                        # Single target element: use a 1D weight vector so that the product of weights and sources
+                        # is a scalar and not a (1,)-array, which cannot be assigned to a scalar slot (numpy >= 2.3).
+                        weight_mat = weight_mat.squeeze(axis=0)
                     eq = f"{t_str_final} = matvec({w_str}, {s_str_final})"
                 args[w_str] = {'vtype': 'constant', 'value': weight_mat, 'dtype': 'float', 'shape': weight_mat.shape}
 
